@@ -151,6 +151,9 @@ impl<V: Hash, S> Hash for HashableHashSet<V, S> {
                 inner_hasher.finish()
             }));
             buffer.sort_unstable();
+            // Like the std collections, feed the length as well so that adjacent collections
+            // (e.g. in a tuple or `Vec`) cannot trade elements without changing the hash.
+            hasher.write_usize(buffer.len());
             for v in &*buffer {
                 hasher.write_u64(*v);
             }
@@ -366,6 +369,9 @@ impl<K: Hash, V: Hash, S> Hash for HashableHashMap<K, V, S> {
                 inner_hasher.finish()
             }));
             buffer.sort_unstable();
+            // Like the std collections, feed the length as well so that adjacent collections
+            // (e.g. in a tuple or `Vec`) cannot trade entries without changing the hash.
+            state.write_usize(buffer.len());
             for hash in &*buffer {
                 state.write_u64(*hash);
             }
